@@ -118,6 +118,34 @@ void vf_harness(void) { bom_probe(); VF_CANARY(); }
 )
 UNITS += [bom_probe]
 
+# ---- number formats of the encoder: in exact mode (neither SIMPLE nor SHORTF) a float is printed with >= 9 and a double with >= 17 significant digits - the smallest precisions
+# for which decimal text identifies every binary32 / binary64 value (IEEE 754-2008 5.12.2); fewer digits make some values come back changed
+fmt_precision = Unit(
+    'XdlEncoder_number_formats', 'C05',
+    cuts=[Cut('fm', X, r'(_fmtF = [^;]*;\s*_fmtD = [^;]*;\s*if \(mode & Json::SHORTF\)\s*_fmtD = _fmtF;)', kind='expr',
+              rules=[(r'\b_simple\b', 'vf_simple', None), (r'Json::SHORTF', 'VF_SHORTF', None)])],
+    text=r'''
+#include "vf_base.h"
+bool nondet_bool(void);
+#define VF_SHORTF 64
+static int precision(const char* f) { __CPROVER_assert(f[0] == '%' && f[1] == '.', "format is %.<precision>g"); int p = 0, i = 2; while (f[i] >= '0' && f[i] <= '9' && i < 6) { p = 10 * p + (f[i] - '0'); i++; } __CPROVER_assert(f[i] == 'g' && f[i + 1] == 0, "format is %.<precision>g"); return p; }
+void vf_harness(void) {
+  bool vf_simple = nondet_bool(), shortf = nondet_bool(); int mode = shortf ? VF_SHORTF : 0;
+  const char *_fmtF, *_fmtD;
+  @@fm@@
+  if (!vf_simple) __CPROVER_assert(precision(_fmtF) >= 9, "exact mode: floats are written with at least 9 significant digits (needed to recover every float exactly)");
+  if (!vf_simple && !shortf) __CPROVER_assert(precision(_fmtD) >= 17, "exact mode: doubles are written with at least 17 significant digits (needed to recover every double exactly)");
+  __CPROVER_assert(precision(_fmtF) <= 9 && precision(_fmtD) <= 17, "and with no more than that (the buffers of new_number are sized for it)");
+  VF_CANARY();
+}
+''',
+    entry=None, unwind=8, floor=3, expect=['assertion'],
+    desc='XdlEncoder::encode: the printf formats chosen for floats and doubles carry 9 / 17 significant digits in exact mode (the minimum for an exact round trip of every value) and never more (buffer sizes)',
+    functions=['XdlEncoder::encode (number formats)'],
+    trusted=['IEEE 754: 9 / 17 significant decimal digits identify every binary32 / binary64 value; printf/atof correctly rounded (libc)'],
+)
+UNITS += [fmt_precision]
+
 # replay: per-value lemmas and buffer units have no direct native input; the driver's battery (every byte in values/keys, key lengths 0..40, numeric boundaries,
 # prefixes, 2-chunk cuts, tiny files) runs on the real encoder/decoder instead
 for _u in UNITS:
